@@ -276,6 +276,14 @@ fn alphabet_wide() -> Vec<V> {
         // maps that differ in a bool key only (unequal, and `unique` must keep both)
         V::Map(vec![(K::Bool(true), V::I64(1))]),
         V::Map(vec![(K::Bool(false), V::I64(1))]),
+        // negative floats with a fraction between the integers next to them (with 0 above:
+        // -1.5 < -1 < -0.5 < 0; seeded change C16-11 compared a float with an integer after
+        // truncating it toward zero)
+        V::F64(-0.5),
+        V::I64(-1),
+        V::F64(-1.5),
+        mid(10, Some(V::F64(-0.5))),
+        mid(11, Some(V::I64(-1))),
     ]);
     v
 }
